@@ -259,6 +259,11 @@ func intBinop(op token.Token, x, y value) value {
 		ib := iv(b)
 		ia := iv(a)
 		if ib.lo != nil && ib.lo.Sign() > 0 && ia.lo != nil && ia.lo.Sign() >= 0 {
+			if op == token.REM {
+				// non-negative dividend, positive divisor: Go's % is the mathematical mod,
+				// whose interval [0, b.hi-1] avoids a wrap term
+				return ti(IntBin("mod", a, b))
+			}
 			q = IntBin("div", a, b)
 		} else if !signed {
 			q = IntBin("div", a, b)
